@@ -103,3 +103,60 @@ def run_stream(ctx, n_cases):
             samples.append({"pattern": pattern, "mesh_ids": ids, "result": want})
     stats["samples"] = samples
     return stats
+
+
+def run_batch_stream(ctx, n_cases):
+    """the whole BHJM_magnet_trimesh in IEEE double (Model/TrimeshSum.lean): batches with equal and with different face counts,
+    fields B/H/J/M, generic observers (distinct, off the surfaces), near and far bodies in one call; rel. 1e-7 of the
+    polarization scale (triangle sheets cancel near edge extensions)"""
+    from magpylib import mu_0
+    from magpylib._src.fields.field_BH_triangularmesh import BHJM_magnet_trimesh, mask_inside_trimesh
+
+    from corr.kern_family import enc, unbits
+
+    rng = ctx.rng
+    lines, expect = [], []
+    stats = {"batches": n_cases, "rows": 0, "ragged": 0, "disagreements": 0, "fields": {}}
+    for _ in range(n_cases):
+        nps = np.random.default_rng(rng.randrange(2**31))
+        pool, ids, _, _, pattern = gen_case(rng)
+        n, K = len(ids), len(pool)
+        far = rng.random() < 0.3  # one body far away from the others' observers
+        obs = []
+        for k, i in enumerate(ids):
+            ext = np.abs(pool[rng.randrange(K)].reshape(-1, 3)).max(axis=0)
+            o = nps.uniform(-1.6, 1.6, 3) * ext
+            if far and k == n - 1:
+                o = o + nps.uniform(200, 2000, 3)
+            obs.append(o)
+        obs = np.array(obs)
+        pol = nps.uniform(-1, 1, (n, 3))
+        f = rng.choice("BBHHJM")
+        same_shape = len({pool[i].shape for i in ids}) == 1
+        if same_shape:
+            mesh = np.array([pool[i] for i in ids], dtype=float)
+        else:
+            mesh = np.empty(n, dtype=object)
+            for k, i in enumerate(ids):
+                mesh[k] = pool[i].copy()
+            stats["ragged"] += 1
+        real = np.asarray(BHJM_magnet_trimesh(f, obs.copy(), mesh, pol.copy()), dtype=float)
+        table = [[int(bool(mask_inside_trimesh(obs[i][None].copy(), pool[j].copy())[0])) for i in range(n)] for j in range(K)]
+        rows = " ".join(f"{ids[k]} {len(pool[ids[k]])} {enc(pool[ids[k]])} {enc(obs[k])} {enc(pol[k])}" for k in range(n))
+        lines.append(f"trimesh batch {f} {n} {K} {rows} " + " ".join(str(b) for row in table for b in row))
+        expect.append((real, f, pattern, ids))
+        stats["rows"] += n
+        stats["fields"][f] = stats["fields"].get(f, 0) + 1
+    out = run_driver(lines)
+    for o, (real, f, pattern, ids) in zip(out, expect):
+        try:
+            got = np.array([unbits(t) for t in o.split()]).reshape(-1, 3)
+        except Exception:  # noqa: BLE001
+            got = None
+        scale = 1.0 if f in "BJ" else 1.0 / mu_0
+        ok = got is not None and got.shape == real.shape and bool(np.all(np.abs(got - real) <= 1e-7 * np.maximum(np.maximum(np.abs(got), np.abs(real)).max(axis=1, keepdims=True), 1e-12 * scale)))
+        if not ok:
+            stats["disagreements"] += 1
+            if stats["disagreements"] <= 3:
+                ctx.broken.append({"kind": "correspondence", "name": "trimesh-batch", "detail": {"field": f, "pattern": pattern, "mesh_ids": ids, "model": str(got), "real": str(real)}})
+    return stats
